@@ -17,11 +17,15 @@ THEOREM DiffRoundTrip == \A p, a \in Nat : DecodeDiff(p, EncodeDiff(p, a)) = a
 <1>1. CASE p >= a
     <2>1. EncodeDiff(p, a) = (p - a) * 2  BY <1>1 DEF EncodeDiff
     <2>2. ((p - a) * 2) % 2 = 0 /\ ((p - a) * 2) \div 2 = p - a  BY <1>1, SMT
-    <2> QED BY <1>1, <2>1, <2>2, SMT DEF DecodeDiff
+    <2>3. DecodeDiff(p, (p - a) * 2) = p - (p - a)  BY <2>2 DEF DecodeDiff
+    <2>4. p - (p - a) = a  BY <1>1, SMT
+    <2> QED BY <2>1, <2>3, <2>4
 <1>2. CASE ~(p >= a)
     <2>1. EncodeDiff(p, a) = (a - p) * 2 + 1  BY <1>2 DEF EncodeDiff
     <2>2. ((a - p) * 2 + 1) % 2 = 1 /\ ((a - p) * 2 + 1) \div 2 = a - p  BY <1>2, SMT
-    <2> QED BY <1>2, <2>1, <2>2, SMT DEF DecodeDiff
+    <2>3. DecodeDiff(p, (a - p) * 2 + 1) = p + (a - p)  BY <2>2 DEF DecodeDiff
+    <2>4. p + (a - p) = a  BY <1>2, SMT
+    <2> QED BY <2>1, <2>3, <2>4
 <1> QED BY <1>1, <1>2
 
 \* the encoded value identifies prediction error and direction: it is injective in the actual value
